@@ -43,7 +43,24 @@ RULE = ('codec: random keyword sets over all 16 ControlParameters fields (values
         'x front-end x {register, unregister after a successful register, first of two routes declared before connecting '
         '(the starting task must go on and after_start must run), first and last of three concurrent calls}: the call '
         'returns False without raising and the following commands go out. non-trivial = at least two commands or a non-200 '
-        'reply; distinct by hash of (front-end, clock, events)')
+        'reply; distinct by hash of (front-end, clock, events). management-model family: for EVERY TlvModel class of '
+        'nfd_mgmt found on this run (control parameters, control response, every status dataset: FaceStatus, FaceQueryFilter, '
+        'RibStatus/RibEntry/Route, FibStatus, StrategyChoice, CsInfo, GeneralStatus, FaceEventNotification ...; must be the 20 of '
+        'Model/NfdMgmt.v nfd_models) values of every field - ordinary fields from the C08 generators (0/255/256/../2^64-1, texts, '
+        'names, 1-3 repeated sub-models, absent fields), enumerated fields (T1: val_base_type read off the class on this run; table '
+        'compared with Generated/NfdEnums.v) from their protocol domain as the extracted Spec/NfdEnums.domain gives it: every member, '
+        'for the bit fields Flags(0x6c)/Mask(0x70) every union of declared bits incl. none (bit field = fact of the wire protocol, '
+        'NOT the Python kind of the type), plus unknown neighbours (top+1, top+2, 255, 256, 65535, 65536, 2^32-1, 2^32, 2^64-1); '
+        'enumerated: (enumerated field reachable from the class) x (number) x (given as a number / written with the enum type: '
+        'member, or members joined with |), plus random values per class. Each value is built by attribute assignment (lists '
+        'assigned or appended to), encoded (wire compared with the model), decoded with Cls.parse (stored fields compared with the '
+        'model) and EVERY attribute is read by plain attribute access, recursively; numbers compared as int(x.value)/int(x); a bit '
+        'field answers MEMBER in obj.flags by its bits; typed_read of the model compared with the implementation on every number. '
+        'Oracle: reading never raises and returns the encoded value for every number of the protocol domain (unknown numbers: '
+        'refusal with ValueError is counted, stored number compared). command family: every member / every union (both orders) of '
+        'RouteFlags -> rib/register, rib/unregister flags; FaceFlags -> faces/create, faces/update flags and mask; FacePersistency -> '
+        'faces/create, faces/update, written with the enum types themselves, both command formats: the expression must be buildable '
+        'and the parameters component decodes to the prefix and the number')
 ASSUMPTIONS = ['asyncio (Semaphore FIFO hand-over, sleep, wait_for, task scheduling) is represented by the event alphabet '
                'of Model/Registerer.v and exercised unmodified on the virtual-time loop',
                'make_interest / Interest signing is not modelled here (C01/C02): the harness checks on the real bytes '
@@ -177,6 +194,8 @@ def run_codec(ctx):
     finally:
         nfd_mgmt.timestamp, nfd_mgmt.gen_nonce_64 = o_ts, o_nonce
     run_responses(ctx)
+    run_datasets(ctx)
+    run_enum_commands(ctx)
 
 
 def cmp_name(ctx, site, case, m, r):
@@ -339,6 +358,519 @@ def flat_uints(vals):
         elif x[0] == 'm':
             out += flat_uints(x[1])
     return out
+
+
+# =================================================================================================
+# Part A' — every management model / status dataset, used the way an application uses it
+# =================================================================================================
+# order of [nfd_models] in Model/NfdMgmt.v (= order of Generated/Schemas.v: sorted class names); ops 10/11 take the index
+NFD_MODELS = ['ControlParameters', 'ControlParametersValue', 'ControlResponse', 'CsInfo', 'FaceEventNotification',
+              'FaceEventNotificationValue', 'FaceQueryFilter', 'FaceQueryFilterValue', 'FaceStatus', 'FaceStatusMsg',
+              'FibEntry', 'FibStatus', 'GeneralStatus', 'NextHopRecord', 'RibEntry', 'RibStatus', 'Route', 'Strategy',
+              'StrategyChoice', 'StrategyChoiceMsg']
+# NFD management protocol: Flags (TLV type 0x6c) and Mask (0x70) are bit fields - every union of the declared bits is a
+# value a forwarder sends; every other enumerated field takes exactly one of the declared numbers.  This is a fact of the
+# wire protocol and deliberately NOT read off the Python enum type (Flag / Enum) of the run: which of the two the library
+# uses for a field is the thing under test.
+BITFIELD_TYPES = (0x6c, 0x70)
+# names under which a bit field / enumeration of the status datasets is also a control parameter of a command, and the
+# commands that carry it (faces/update selects the Flags bits it changes with Mask: same bits)
+PARAM_COMMANDS = {'RouteFlags': [('rib', 'register', 'flags'), ('rib', 'unregister', 'flags')],
+                  'FaceFlags': [('faces', 'create', 'flags'), ('faces', 'update', 'flags'), ('faces', 'update', 'mask')],
+                  'FacePersistency': [('faces', 'create', 'face_persistency'), ('faces', 'update', 'face_persistency')]}
+
+
+def enum_base(f):
+    """T1: the enumeration type of a UintField as declared in the source of this run (None for plain int fields)."""
+    from enum import Enum
+    b = getattr(f, 'val_base_type', int)
+    return b if isinstance(b, type) and issubclass(b, Enum) else None
+
+
+def member_values(base):
+    return sorted({int(m.value) for m in base.__members__.values()})
+
+
+SPEC = {'call': None, 'domain': {}}     # the extracted specification (Spec/NfdEnums.v [domain]) once the model runs
+
+
+def ekind_of(base):
+    """kind of the Python type as Model/NfdEnums.v names it: 0 Enum, 1 Flag (strict), 2 Flag (KEEP)."""
+    import enum
+    if issubclass(base, enum.Flag):
+        return 2 if getattr(base, '_boundary_', None) is enum.FlagBoundary.KEEP else 1
+    return 0
+
+
+def enum_domain(base, type_num):
+    """-> (legal, unknown): the numbers the management protocol defines for the field (members; for a bit field every
+    union of the declared bits, 0 included: Spec/NfdEnums.v [domain], evaluated by the extracted specification) and
+    neighbouring numbers it does not define."""
+    mem = member_values(base)
+    key = (type_num, tuple(mem))
+    if key not in SPEC['domain']:
+        if type_num in BITFIELD_TYPES:
+            legal = {0}
+            for b in mem:
+                legal |= {x | b for x in legal}
+        else:
+            legal = set(mem)
+        if SPEC['call'] is not None:
+            r = SPEC['call']([15, type_num, mem])
+            spec = {num(x) for x in r[1]} if isinstance(r, list) and len(r) == 2 and not is_err(r) else None
+            if spec != legal:
+                SPEC['mismatch'] = (key, r)
+            if spec:
+                legal = spec
+        SPEC['domain'][key] = legal
+    legal = SPEC['domain'][key]
+    top = max(legal)
+    cand = [0, top + 1, top + 2, 2 * (top + 1), 255, 256, 65535, 65536, (1 << 32) - 1, 1 << 32, (1 << 64) - 1]
+    unknown = []
+    for c in cand:
+        if c not in legal and c not in unknown:
+            unknown.append(c)
+    return sorted(legal), unknown
+
+
+def enum_expr(base, v):
+    """the number v written with the enumeration type itself: the member of that value, else the members of its bits
+    joined with | (raises what the library raises; LookupError when v has no such spelling)."""
+    import functools
+    import operator
+    by_val = {}
+    for m in base.__members__.values():
+        by_val.setdefault(int(m.value), m)
+    if v in by_val:
+        return by_val[v]
+    bits = [by_val[b] for b in sorted(by_val) if b and b & (b - 1) == 0 and v & b]
+    if not bits or functools.reduce(operator.or_, [int(m.value) for m in bits]) != v:
+        raise LookupError(v)
+    return functools.reduce(operator.or_, bits)
+
+
+def plain_int(o):
+    from enum import Enum
+    return int(o.value) if isinstance(o, Enum) else int(o)
+
+
+class DatasetGen:
+    """values of a management model: ordinary fields from the C08 generators (legal range), enumerated fields from their
+    protocol domain; [pin] forces one (class, field) to one number."""
+    def __init__(self, rng, pin=None, p_unknown=0.12, presence=0.75):
+        self.rng, self.pin, self.p_unknown, self.presence = rng, pin, p_unknown, presence
+        self.pinned = False
+        self.enum_fields = []      # (class name, field name, base, number) in generation order
+
+    def model(self, cls):
+        return ('m', [self.field(cls, f, D.reflect_field(f)[1], self.presence) for f in D.wire_fields(cls)])
+
+    def field(self, cls, f, fd, presence):
+        rng = self.rng
+        pinned_here = self.pin is not None and self.pin[:2] == (cls.__name__, f.name)
+        if rng.random() > presence and not pinned_here:
+            return None
+        k = fd[0]
+        if k == 'uint':
+            base = enum_base(f)
+            if base is not None:
+                if pinned_here:
+                    n = self.pin[2]
+                    self.pinned = True
+                else:
+                    legal, unknown = enum_domain(base, f.type_num)
+                    n = rng.choice(unknown) if rng.random() < self.p_unknown else rng.choice(legal)
+                if fd[1] is not None:
+                    n %= 256 ** fd[1]
+                self.enum_fields.append((cls.__name__, f.name, base, n))
+                return ('u', n)
+            n = TG.rand_value(rng, fd)[1]
+            return ('u', n if n < 1 << 64 else (1 << 64) - 1)
+        if k == 'model':
+            return self.model(f.model_type)
+        if k == 'rep':
+            et = f.element_type
+            return ('l', [self.field(cls, et, fd[1], 1.0) if fd[1][0] != 'model' else self.model(et.model_type)
+                          for _ in range(rng.choice([1, 1, 2, 3]))])
+        if k == 'map':
+            v = TG.rand_value(rng, fd)
+            return v
+        return TG.rand_value(rng, fd)
+
+
+def build_api(cls, v, as_enum, rng):
+    """the object an application builds: plain attribute assignment (lists assigned or appended to), enumerated fields
+    given as numbers or, where [as_enum], written with the enumeration type."""
+    obj = cls()
+    for f, fv in zip(D.wire_fields(cls), v[1]):
+        if fv is None:
+            continue
+        fd = D.reflect_field(f)[1]
+        k = fd[0]
+        if k == 'rep':
+            items = [api_value(f.element_type, fd[1], x, as_enum, rng) for x in fv[1]]
+            if rng.random() < 0.5:
+                setattr(obj, f.name, items)
+            else:
+                for x in items:
+                    getattr(obj, f.name).append(x)
+        else:
+            setattr(obj, f.name, api_value(f, fd, fv, as_enum, rng))
+    return obj
+
+
+def api_value(f, fd, fv, as_enum, rng):
+    k = fd[0]
+    if k == 'uint':
+        base = enum_base(f)
+        if base is not None and as_enum and fv[1] in enum_domain(base, f.type_num)[0]:
+            # a number the protocol defines has a spelling: a member, or for a bit field members joined with |
+            # (an exception of the library while spelling it is the caller's 'dataset-unbuildable')
+            try:
+                return enum_expr(base, fv[1])
+            except LookupError:
+                return fv[1]
+        return fv[1]
+    if k == 'model':
+        return build_api(f.model_type, fv, as_enum, rng)
+    return D.to_py(fd, fv)
+
+
+class Unreadable:
+    def __init__(self, exc, stored):
+        self.exc, self.stored = exc, stored
+
+
+def read_api(cls, obj, path, out):
+    """what an application reads off a decoded object by plain attribute access, as a model value; every read that
+    raises is put into [out] as (owner class, field, path, exception, stored number)."""
+    vals = []
+    for f in D.wire_fields(cls):
+        fd = D.reflect_field(f)[1]
+        here = f'{path}.{f.name}'
+        try:
+            o = getattr(obj, f.name)
+        except Exception as e:   # noqa
+            stored = obj.__dict__.get(f.name)
+            out.append((cls.__name__, f.name, here, e, stored))
+            vals.append(('unreadable', type(e).__name__))
+            continue
+        vals.append(read_value(f, fd, o, here, out))
+    return ('m', vals)
+
+
+def read_value(f, fd, o, path, out):
+    k = fd[0]
+    if o is None:
+        return None
+    if k == 'uint':
+        return ('u', plain_int(o))
+    if k == 'model':
+        return read_api(f.model_type, o, path, out)
+    if k == 'rep':
+        if not len(o):
+            return None
+        return ('l', [read_value(f.element_type, fd[1], x, f'{path}[{i}]', out) for i, x in enumerate(o)])
+    return D.from_py(fd, o)
+
+
+def value_diff(cls, given, got, path):
+    """first field (owner class, field, path, given, got) on which two model values differ."""
+    for f, a, b in zip(D.wire_fields(cls), given[1], got[1]):
+        fd = D.reflect_field(f)[1]
+        here = f'{path}.{f.name}'
+        if fd[0] == 'model' and a is not None and b is not None and b[0] == 'm':
+            d = value_diff(f.model_type, a, b, here)
+            if d:
+                return d
+        elif fd[0] == 'rep' and fd[1][0] == 'model' and a is not None and b is not None and b[0] == 'l' \
+                and len(a[1]) == len(b[1]):
+            for i, (x, y) in enumerate(zip(a[1], b[1])):
+                d = value_diff(f.element_type.model_type, x, y, f'{here}[{i}]') if y is not None and y[0] == 'm' else \
+                    (cls.__name__, f.name, here, x, y)
+                if d:
+                    return d
+        elif canon(a) != canon(b):
+            return (cls.__name__, f.name, here, a, b)
+    return None
+
+
+def check_dataset(ctx, k, cls, v, as_enum, gen, stratum):
+    """encode -> decode -> read every attribute: C17_dataset_parse_wire on the implementation, at the level of what the
+    application gives and reads (numbers of enumerated fields compared as plain integers)."""
+    rng = ctx.rng
+    M = ctx.call
+    name = cls.__name__
+    case = {'model': name, 'fields': v[1], 'enumerated_given_as': 'members of the enum type' if as_enum else 'numbers'}
+    legal_case = all(n in enum_domain(b, field_type(c, fn))[0] for c, fn, b, n in gen.enum_fields)
+    ctx.case(('dataset', name, repr(v), as_enum), True, None, f'dataset:{name}')
+    ctx.stat('dataset:' + stratum)
+    # -- encode
+    try:
+        wire = bytes(build_api(cls, v, as_enum, rng).encode())
+    except Exception as e:   # noqa
+        ctx.violation(f'nfd_mgmt.{name}', 'dataset-unbuildable',
+                      f'building / encoding the dataset from the given fields raised {type(e).__name__}: {e}'[:300], case)
+        return
+    mw = M([10, k, [D.val_sexp(x) for x in v[1]]])
+    if is_err(mw) or bytes(mw[1]) != wire:
+        ctx.disagree(f'{name}.encode', 'different wire', case, mw, wire)
+    case['wire'] = wire
+    # -- decode
+    try:
+        obj = cls.parse(wire)
+    except Exception as e:   # noqa
+        ctx.violation(f'nfd_mgmt.{name}', 'dataset-undecodable',
+                      f'{name}.parse of the encoded dataset raised {type(e).__name__}: {e}'[:300], case)
+        return
+    mp = M([11, k, wire])
+    stored = D.from_py(D.reflect_class(cls), obj)
+    if is_err(mp) or ('m', [norm_val(x) for x in mp[1]]) != canon(stored):
+        ctx.disagree(f'{name}.parse', 'different stored fields', case, mp, stored)
+    # -- read every attribute
+    unread = []
+    try:
+        got = read_api(cls, obj, name, unread)
+    except Exception as e:   # noqa
+        ctx.violation(f'nfd_mgmt.{name}', 'dataset-unreadable', f'walking the decoded object raised {type(e).__name__}: {e}'[:300], case)
+        return
+    for owner, fname, path, e, st in unread:
+        f = next(x for x in D.wire_fields(getattr(__import__('ndn.app_support.nfd_mgmt', fromlist=['x']), owner)) if x.name == fname)
+        base = enum_base(f)
+        known = base is None or st in enum_domain(base, f.type_num)[0]
+        if known or not isinstance(e, ValueError):
+            ctx.violation(f'{owner}.{fname}', 'attribute-unreadable',
+                          f'reading {path} of the decoded {name} raised {type(e).__name__}: {e}'.replace('\n', ' ')[:300] +
+                          f' (encoded number {st}, a value the management protocol defines for this field)', case)
+        else:
+            # a number the protocol does not define (yet): the typed attribute refuses it with ValueError on the library as
+            # found; recorded, the stored number is compared instead (see docs/C17.md, "unknown numbers")
+            ctx.stat(f'unknown-number-refused:{base.__name__}')
+    # model of the typed read (Model/NfdEnums.v typed_read on the type found on this run) vs the implementation
+    for owner, fname, base, n in sorted(set(gen.enum_fields), key=repr):
+        raised = any(u[0] == owner and u[1] == fname and u[4] == n for u in unread)
+        mr = M([14, ekind_of(base), member_values(base), n])
+        if is_err(mr) != raised or (not is_err(mr) and num(mr[1]) != n):
+            ctx.disagree(f'{owner}.{fname}', 'typed read of an enumerated field: model and implementation differ',
+                         {'model': name, 'type': base.__name__, 'number': n}, mr, 'raises' if raised else 'returns')
+    if unread:
+        got = patch_unreadable(cls, got, obj)
+    d = value_diff(cls, ('m', v[1]), got, name)
+    if d is not None:
+        owner, fname, path, a, b = d
+        ctx.violation(f'{owner}.{fname}', 'attribute-differs',
+                      f'{path} of the decoded {name} reads {b!r}, encoded {a!r}'[:300], case)
+    if as_enum:
+        check_flag_tests(ctx, cls, obj, case)
+    return legal_case
+
+
+def field_type(cname, fname):
+    from ndn.app_support import nfd_mgmt
+    return next(x.type_num for x in D.wire_fields(getattr(nfd_mgmt, cname)) if x.name == fname)
+
+
+def patch_unreadable(cls, got, obj):
+    """replace the attributes that could not be read by the stored numbers (for the comparison of the other fields)."""
+    vals = []
+    for f, g in zip(D.wire_fields(cls), got[1]):
+        fd = D.reflect_field(f)[1]
+        o = obj.__dict__.get(f.name)
+        if g is not None and g[0] == 'unreadable':
+            vals.append(D.from_py(fd, o))
+        elif g is not None and fd[0] == 'model' and o is not None:
+            vals.append(patch_unreadable(f.model_type, g, o))
+        elif g is not None and fd[0] == 'rep' and fd[1][0] == 'model' and o:
+            vals.append(('l', [patch_unreadable(f.element_type.model_type, x, y) for x, y in zip(g[1], o)]))
+        else:
+            vals.append(g)
+    return ('m', vals)
+
+
+def check_flag_tests(ctx, cls, obj, case):
+    """a bit field read off the decoded object answers the membership test an application writes (MEMBER in obj.flags)
+    according to the encoded bits."""
+    for f in D.wire_fields(cls):
+        fd = D.reflect_field(f)[1]
+        o = obj.__dict__.get(f.name)
+        if fd[0] == 'model' and o is not None:
+            check_flag_tests(ctx, f.model_type, o, case)
+        elif fd[0] == 'rep' and fd[1][0] == 'model' and o:
+            for x in o:
+                check_flag_tests(ctx, f.element_type.model_type, x, case)
+        elif fd[0] == 'uint' and enum_base(f) is not None and f.type_num in BITFIELD_TYPES and o is not None:
+            base = enum_base(f)
+            if o not in enum_domain(base, f.type_num)[0]:
+                continue
+            for m in base.__members__.values():
+                b = int(m.value)
+                if not b or b & (b - 1):
+                    continue
+                try:
+                    r = m in getattr(obj, f.name)
+                except Exception:   # noqa  (unreadable: reported by the caller) / not a container: reported here
+                    try:
+                        getattr(obj, f.name)
+                    except Exception:   # noqa
+                        break
+                    ctx.violation(f'{cls.__name__}.{f.name}', 'flag-test-raises',
+                                  f'{base.__name__}.{m.name} in <decoded {cls.__name__}>.{f.name} raises (encoded {o})', case)
+                    break
+                if bool(r) != bool(o & b):
+                    ctx.violation(f'{cls.__name__}.{f.name}', 'flag-test-wrong',
+                                  f'{base.__name__}.{m.name} in <decoded {cls.__name__}>.{f.name} is {r}, encoded number {o}', case)
+
+
+def enum_field_sites(cls, seen=None):
+    """(owner class, field) of every enumerated field reachable from cls."""
+    out = []
+    for f in D.wire_fields(cls):
+        fd = D.reflect_field(f)[1]
+        if fd[0] == 'uint' and enum_base(f) is not None:
+            out.append((cls, f))
+        elif fd[0] == 'model':
+            out += enum_field_sites(f.model_type)
+        elif fd[0] == 'rep' and fd[1][0] == 'model':
+            out += enum_field_sites(f.element_type.model_type)
+    return out
+
+
+def run_datasets(ctx):
+    import inspect as I
+    from ndn.app_support import nfd_mgmt
+    from ndn.encoding.tlv_model import TlvModel
+    rng = ctx.rng
+    found = sorted(n for n, c in vars(nfd_mgmt).items()
+                   if I.isclass(c) and issubclass(c, TlvModel) and c is not TlvModel and c.__module__ == nfd_mgmt.__name__)
+    nm = ctx.call([12])
+    if found != NFD_MODELS or num(nm) != len(NFD_MODELS):
+        ctx.disagree('nfd_models', 'the management models of nfd_mgmt.py are not the ones listed in Model/NfdMgmt.v',
+                     {}, [NFD_MODELS, nm], found)
+    SPEC['call'], SPEC['domain'] = ctx.call, {}
+    SPEC.pop('mismatch', None)
+    # the table of enumerated fields the theorems are about (Generated/NfdEnums.v) is the one reflected on this run
+    mine = []
+    for k, name in enumerate(NFD_MODELS):
+        c = getattr(nfd_mgmt, name, None)
+        for f in (D.wire_fields(c) if c is not None else []):
+            if D.reflect_field(f)[1][0] == 'uint' and enum_base(f) is not None:
+                mine.append((k, f.type_num, ekind_of(enum_base(f)), tuple(member_values(enum_base(f)))))
+    tab = ctx.call([13])
+    theirs = [(num(r[0]), num(r[1]), num(r[2]), tuple(num(x) for x in r[3])) for r in tab] if isinstance(tab, list) else tab
+    if theirs != mine:
+        ctx.disagree('nfd_enum_fields', 'the table of enumerated fields of Generated/NfdEnums.v is not the one reflected on this run',
+                     {}, theirs, mine)
+    for k, name in enumerate(NFD_MODELS):
+        cls = getattr(nfd_mgmt, name, None)
+        if cls is None:
+            continue
+        # (1) every enumerated field reachable from the class x every number of its protocol domain (and the
+        #     neighbouring unknown numbers) x given as a number / written with the enum type
+        for owner, f in enum_field_sites(cls):
+            legal, unknown = enum_domain(enum_base(f), f.type_num)
+            for n in legal + unknown:
+                for as_enum in (False, True):
+                    if as_enum and n not in legal:
+                        continue
+                    for _ in range(20):
+                        g = DatasetGen(rng, pin=(owner.__name__, f.name, n), p_unknown=0.0, presence=0.85)
+                        v = g.model(cls)
+                        if g.pinned:
+                            break
+                    else:
+                        continue
+                    check_dataset(ctx, k, cls, v, as_enum, g, 'enumerated-' + ('legal' if n in legal else 'unknown'))
+        # (2) random and boundary values of every field
+        for it in range(ctx.n(25, 500)):
+            g = DatasetGen(rng, presence=rng.choice([0.3, 0.75, 1.0]))
+            v = g.model(cls)
+            check_dataset(ctx, k, cls, v, rng.random() < 0.5, g, 'random')
+    if 'mismatch' in SPEC:
+        ctx.disagree('Spec.NfdEnums.domain', 'the extracted protocol domain differs from the harness computation', {},
+                     SPEC['mismatch'][1], SPEC['mismatch'][0])
+
+
+def run_enum_commands(ctx):
+    """commands whose parameters are written with the enumeration types of the status datasets: every member and, for
+    the bit fields, every union of members built with |; both command formats."""
+    import functools
+    import operator
+    from ndn.app_support import nfd_mgmt
+    from ndn.encoding import Name
+    rng = ctx.rng
+    M = ctx.call
+    cls = nfd_mgmt.ControlParametersValue
+    cpv = D.reflect_class(cls)
+    fields = D.wire_fields(cls)
+    idx = {f.name: i for i, f in enumerate(fields)}
+    bases = {}
+    for name in NFD_MODELS:
+        c = getattr(nfd_mgmt, name, None)
+        for owner, f in (enum_field_sites(c) if c is not None else []):
+            bases.setdefault(enum_base(f).__name__, (enum_base(f), f.type_num))
+    o_ts, o_nonce = nfd_mgmt.timestamp, nfd_mgmt.gen_nonce_64
+    nfd_mgmt.timestamp, nfd_mgmt.gen_nonce_64 = (lambda: 7), (lambda: 9)
+    try:
+        for bname, (base, tnum) in sorted(bases.items()):
+            cmds = PARAM_COMMANDS.get(bname)
+            if not cmds:
+                continue
+            single = {}
+            for m in base.__members__.values():
+                single.setdefault(int(m.value), m)
+            bits = [b for b in sorted(single) if b and b & (b - 1) == 0]
+            exprs = [((m.name,), int(m.value), (lambda m=m: m)) for m in single.values()]
+            if tnum in BITFIELD_TYPES:
+                for mask in range(1, 1 << len(bits)):
+                    sel = [bits[i] for i in range(len(bits)) if mask >> i & 1]
+                    if len(sel) < 2:
+                        continue
+                    for order in (sel, sel[::-1]):
+                        exprs.append((tuple(single[b].name for b in order), functools.reduce(operator.or_, order),
+                                      (lambda order=order: functools.reduce(operator.or_, [single[b] for b in order]))))
+            for names, number, build in exprs:
+                text = ' | '.join(f'{bname}.{n}' for n in names)
+                for module, command, kwname in cmds:
+                    prefix = G.name_of_tv(G.rand_name_tv(rng, 4))
+                    face = rng.choice([None, FakeFace(True), FakeFace(False)])
+                    local = True if face is None else face.local
+                    vals = [None] * len(fields)
+                    vals[idx['name']] = ('n', prefix)
+                    vals[idx[kwname]] = ('u', number)
+                    case = {'module': module, 'command': command, 'local': local, 'vals': vals, 'written_as': f'{kwname}={text}'}
+                    ctx.case(('enumcmd', module, command, kwname, text), True, None, 'command-enum-parameter')
+                    if len(names) == 2:
+                        a, b = [int(base.__members__[n].value) for n in names]
+                        mj = M([16, ekind_of(base), a, b])
+                        rj = impl(build)
+                        if is_err(mj) != (rj[0] == 'err') or (not is_err(mj) and num(mj[1]) != plain_int(rj[1])):
+                            ctx.disagree(f'nfd_mgmt.{bname}', 'A | B: model and implementation differ', {'written_as': text}, mj, rj[:1])
+                    try:
+                        arg = build()
+                    except Exception as e:   # noqa
+                        ctx.violation(f'nfd_mgmt.{bname}', 'flag-combination',
+                                      f'{text} raises {type(e).__name__}: {e}'[:300] + f' (a {module}/{command} command with '
+                                      f'{kwname}={number} cannot be written with the enumeration type)', case)
+                        continue
+                    kw = {'name': [bytes(c) for c in prefix], kwname: arg}
+                    m = M([1, local, module.encode(), command.encode(), [D.val_sexp(v) for v in vals]])
+                    r = impl(nfd_mgmt.make_command_v2, module, command, face, **kw)
+                    cmp_name(ctx, 'make_command_v2', case, m, r)
+                    if r[0] == 'ok':
+                        oracle_command_name(ctx, 'make_command_v2', r[1], module, command, local, vals, cpv, case)
+                    else:
+                        ctx.violation('make_command_v2', 'enum-parameter-refused',
+                                      f'make_command_v2 raised {r[2]} for {kwname}={text}', case)
+                    r1 = impl(nfd_mgmt.make_command, module, command, face, **kw)
+                    if r1[0] == 'ok':
+                        comps = [bytes(c) for c in r1[1]]
+                        oracle_v1_tail(ctx, comps, 7, 9, dict(case, ts=7, nonce=9))
+                        oracle_command_name(ctx, 'make_command', comps[:5], module, command, local, vals, cpv, case)
+                    else:
+                        ctx.violation('make_command', 'enum-parameter-refused',
+                                      f'make_command raised {r1[2]} for {kwname}={text}', case)
+    finally:
+        nfd_mgmt.timestamp, nfd_mgmt.gen_nonce_64 = o_ts, o_nonce
 
 
 # =================================================================================================
